@@ -817,6 +817,16 @@ def run(ctx) -> None:
     ctx.visit(inc.fq)
     icfg = cfgs.get(inc.fq)
     ipc = PathCond(icfg)
+    # the bump calendar replaces every calendar field of the old record: `old_vinfo._replace(**cur_cinfo._asdict())`, the whole record of cal_info
+    # (the legacy reader leaves the week fields None; a week pattern is rendered from today's values)
+    splats = [(c, kw) for c in ast.walk(inc.node) if isinstance(c, ast.Call) and isinstance(c.func, ast.Attribute) and c.func.attr == "_replace" for kw in c.keywords if kw.arg is None]
+    for c, kw in splats:
+        src_ = shapes.resolve_alias(inc, kw.value)
+        whole = isinstance(src_, ast.Call) and isinstance(src_.func, ast.Attribute) and src_.func.attr == "_asdict" and not src_.args
+        ctx.check("R4", whole, f"v1version.incr L{c.lineno}: the record takes every field of `{unparse(src_)[:40]}`",
+                  "v1version.incr: only some calendar fields of the bump calendar replace those of the old version",
+                  f"`{unparse(c)[:60]}` with `{unparse(src_)[:90]}`: fields the legacy reader never fills (iso_week, us_week) or that are filtered out stay None / stale, "
+                  f"so a week pattern cannot be rendered or shows the old value", loc=inc.loc(c), witness={"pattern": "v{year}w{iso_week}.{BID}{release}"})
     flags = [p for p in inc.all_params if p in ("major", "minor", "patch", "tag", "tag_num")]
     facts = []
     for n in icfg.nodes:
